@@ -379,3 +379,155 @@ theorem sum_map_add {α} (l : List α) (f g : α → Nat) : (l.map (fun a => f a
   | cons a r ih => simp [ih]; omega
 
 end Qfx
+
+/-! ## message-level invariant -/
+
+namespace Qfx
+
+structure MInv (m : Message) : Prop where
+  h : FMInv m.header
+  b : FMInv m.body
+  t : FMInv m.trailer
+  oh : m.header.ord = .header
+  ob : m.body.ord = .normal
+  ot : m.trailer.ord = .trailer
+
+theorem MInv.new : MInv Message.new :=
+  ⟨FMInv.empty _, FMInv.empty _, FMInv.empty _, rfl, rfl, rfl⟩
+
+theorem setTV_ord {m : FieldMap} {tv : TagValue} {r : SetRes} (h : m.setTV tv = .ok r) : r.fm.ord = m.ord := by
+  unfold FieldMap.setTV at h
+  split at h <;> first | (injection h with h; subst h; rfl) | cases h
+
+/-- replacing one section by a map that keeps the invariant and the comparator keeps the message invariant -/
+theorem MInv.withSec {m : Message} (hm : MInv m) (s : Sec) (fm : FieldMap) (hf : FMInv fm) (ho : fm.ord = (m.sec s).ord) :
+    MInv (m.withSec s fm) := by
+  cases s
+  · exact ⟨hf, hm.b, hm.t, by simpa [Message.withSec, Message.sec, hm.oh] using ho, hm.ob, hm.ot⟩
+  · exact ⟨hm.h, hf, hm.t, hm.oh, by simpa [Message.withSec, Message.sec, hm.ob] using ho, hm.ot⟩
+  · exact ⟨hm.h, hm.b, hf, hm.oh, hm.ob, by simpa [Message.withSec, Message.sec, hm.ot] using ho⟩
+
+theorem MInv.fields {m : Message} (hm : MInv m) (fs : List TagValue) : MInv { m with fields := fs } :=
+  ⟨hm.h, hm.b, hm.t, hm.oh, hm.ob, hm.ot⟩
+
+theorem MInv.sec {m : Message} (hm : MInv m) (s : Sec) : FMInv (m.sec s) := by
+  cases s
+  · exact hm.h
+  · exact hm.b
+  · exact hm.t
+
+theorem MInv.setBytes {m m' : Message} (hm : MInv m) (s : Sec) (t : Tag) (v : Bytes)
+    (h : m.setBytes Fixes.cur s t v = .ok m') : MInv m' := by
+  simp only [Message.setBytes, Fixes.cur, if_true] at h
+  split at h
+  · rename_i r hr
+    have hi : FMInv r.fm := (hm.sec s).setTV _ r hr
+    have ho : r.fm.ord = (m.sec s).ord := setTV_ord hr
+    have hw := hm.withSec s r.fm hi ho
+    split at h
+    · injection h with h; subst h; exact hw.fields _
+    · injection h with h; subst h; exact hw
+  · cases h
+  · cases h
+
+
+theorem MInv.remove {m : Message} (hm : MInv m) (s : Sec) (t : Tag) : MInv (m.remove Fixes.cur s t) := by
+  simp only [Message.remove, Fixes.cur, if_true]
+  exact hm.withSec s _ ((hm.sec s).remove t) rfl
+
+theorem MInv.clear {m : Message} (hm : MInv m) (s : Sec) : MInv (m.clear s) :=
+  hm.withSec s _ FMInv.clear rfl
+
+theorem MInv.setGroup {m m' : Message} (hm : MInv m) (s : Sec) (t : Tag) (tm : List Item) (es : List (List GFld))
+    (h : m.setGroup s t tm es = .ok m') : MInv m' := by
+  simp only [Message.setGroup] at h
+  split at h
+  · injection h with h; subst h; exact hm.withSec s _ ((hm.sec s).setGroup t _) rfl
+  · cases h
+  · cases h
+
+theorem MInv.copy {m m' : Message} (hm : MInv m) (h : m.copy Fixes.cur = .ok m') : MInv m' := by
+  simp only [Message.copy, copyFM, Fixes.cur, if_true] at h
+  injection h with h; subst h
+  exact ⟨hm.h.copy _, hm.b.copy _, hm.t.copy _, hm.oh, hm.ob, hm.ot⟩
+
+theorem MInv.cook {m m' : Message} (hm : MInv m) (bl bt : Nat) (h : m.cook Fixes.cur bl bt = .ok m') : MInv m' := by
+  simp only [Message.cook, Message.setInt] at h
+  split at h
+  · rename_i m1 h1; exact (hm.setBytes _ _ _ h1).setBytes _ _ _ h
+  · cases h
+  · cases h
+
+theorem MInv.writeAll {m : Message} (hm : MInv m) : MInv (m.writeAll none).2 := by
+  simp only [Message.writeAll]
+  exact ⟨hm.h.write m.fields, hm.b.write m.fields, hm.t.write m.fields, hm.oh, hm.ob, hm.ot⟩
+
+/-- the Message API (after the fixes), on any of the three sections -/
+inductive MOp where
+  | set (s : Sec) (t : Tag) (v : Bytes)
+  | setInt (s : Sec) (t : Tag) (v : Int)
+  | setBool (s : Sec) (t : Tag) (v : Bool)
+  | setGroup (s : Sec) (t : Tag) (tmpl : List Item) (entries : List (List GFld))
+  | remove (s : Sec) (t : Tag)
+  | clear (s : Sec)
+  | copy
+  | build       -- `String()` / `Bytes()`: cooks 9 and 10, sorts the order lists
+  deriving Inhabited
+
+def MOp.apply (m : Message) : MOp → Res Message
+  | .set s t v => m.setBytes Fixes.cur s t v
+  | .setInt s t v => m.setInt Fixes.cur s t v
+  | .setBool s t v => m.setBool Fixes.cur s t v
+  | .setGroup s t tm es => m.setGroup s t tm es
+  | .remove s t => .ok (m.remove Fixes.cur s t)
+  | .clear s => .ok (m.clear s)
+  | .copy => m.copy Fixes.cur
+  | .build => (match m.build Fixes.cur with | .ok r => .ok r.2 | .err e => .err e | .fault w => .fault w)
+
+def runMOps : List MOp → Message → Res Message
+  | [], m => .ok m
+  | op :: r, m => (match op.apply m with | .ok m' => runMOps r m' | .err e => .err e | .fault w => .fault w)
+
+theorem MInv.build {m : Message} (hm : MInv m) (bytes : Bytes) (m' : Message) (h : m.build Fixes.cur = .ok (bytes, m')) :
+    MInv m' ∧ ∃ m1, m.cook Fixes.cur (m.body.length m.fields) (m.body.total m.fields) = .ok m1 ∧ MInv m1 ∧
+      bytes = (m1.header.write m1.fields).1 ++ (m1.body.write m1.fields).1 ++ (m1.trailer.write m1.fields).1 := by
+  simp only [Message.build] at h
+  split at h
+  · rename_i m1 h1
+    have hc := hm.cook _ _ h1
+    injection h with h
+    have hb : bytes = (m1.writeAll none).1 := by rw [h]
+    have hm' : m' = (m1.writeAll none).2 := by rw [h]
+    subst hm'
+    exact ⟨hc.writeAll, m1, h1, hc, by rw [hb]; simp [Message.writeAll]⟩
+  · cases h
+  · cases h
+
+theorem MOp.apply_inv {m m' : Message} (hm : MInv m) (op : MOp) (h : op.apply m = .ok m') : MInv m' := by
+  cases op with
+  | set s t v => exact hm.setBytes s t v h
+  | setInt s t v => exact hm.setBytes s t _ h
+  | setBool s t v => exact hm.setBytes s t _ h
+  | setGroup s t tm es => exact hm.setGroup s t tm es h
+  | remove s t => simp only [MOp.apply] at h; injection h with h; subst h; exact hm.remove s t
+  | clear s => simp only [MOp.apply] at h; injection h with h; subst h; exact hm.clear s
+  | copy => exact hm.copy h
+  | build =>
+    simp only [MOp.apply] at h
+    split at h
+    · rename_i r hr; injection h with h; subst h; exact (hm.build r.1 r.2 hr).1
+    · cases h
+    · cases h
+
+theorem runMOps_inv (ops : List MOp) : ∀ (m m' : Message), MInv m → runMOps ops m = .ok m' → MInv m' := by
+  induction ops with
+  | nil => intro m m' h hr; simp only [runMOps] at hr; injection hr with hr; subst hr; exact h
+  | cons op r ih =>
+    intro m m' h hr
+    simp only [runMOps] at hr
+    cases ha : op.apply m with
+    | ok m1 => rw [ha] at hr; exact ih m1 m' (MOp.apply_inv h op ha) hr
+    | err e => rw [ha] at hr; cases hr
+    | fault w => rw [ha] at hr; cases hr
+
+end Qfx
